@@ -751,6 +751,9 @@ func (r *Runner) funcParamCall(st *State, f *Frame, fnv Val, common *ssa.CallCom
 		st.lastCall["prev:"+name] = prev
 	}
 	st.lastCall[name] = callRec{args: args, rets: rets}
+	if r.recorded != nil {
+		r.recorded[name] = true
+	}
 	st.ghost["calls:"+name] = st.define("calls", Add(r.callsTerm(st, name), One))
 	return true
 }
@@ -792,7 +795,8 @@ func (r *Runner) model(st *State, f *Frame, key string, callee *ssa.Function, ar
 		return r.sprintfModel(st, f, args, res, in)
 	case "sync/atomic.AddInt64", "sync/atomic.AddInt32", "sync/atomic.AddUint64", "sync/atomic.AddUint32",
 		"sync/atomic.LoadInt64", "sync/atomic.LoadInt32", "sync/atomic.LoadUint64", "sync/atomic.LoadUint32",
-		"sync/atomic.StoreInt64", "sync/atomic.StoreInt32", "sync/atomic.StoreUint64", "sync/atomic.StoreUint32":
+		"sync/atomic.StoreInt64", "sync/atomic.StoreInt32", "sync/atomic.StoreUint64", "sync/atomic.StoreUint32",
+		"sync/atomic.CompareAndSwapInt64", "sync/atomic.CompareAndSwapInt32", "sync/atomic.CompareAndSwapUint64", "sync/atomic.CompareAndSwapUint32":
 		return r.atomicFuncModel(st, f, key, args, res, pos)
 	case "(*sync.WaitGroup).Add", "(*sync.WaitGroup).Done", "(*sync.WaitGroup).Wait", "(*sync.Once).Do":
 		if key == "(*sync.Once).Do" {
